@@ -135,6 +135,10 @@ def check_species(case, ctx):
         raise
     except AttributeError as e:
         if mass_u is not None and 'per mass basis' in str(e):
+            if getattr(obj, 'elements', None):
+                ctx.fail('C04.species/per-mass-refused-although-elements-given:%s:%s' % (type(obj).__name__, q),
+                         'unit=%s elements=%r: %s' % (u, obj.elements, e))
+                return
             ctx.label('per-mass-refused-no-elements')
             return
         raise
